@@ -43,3 +43,26 @@ def wrong_sum(xs: list[int]) -> int:
     for x in xs:
         total += x
     return total + 1
+
+
+def _less(a, b, slack=0):
+    """straight-line helper without a contract: executed in place by the prover"""
+    if a + slack < b:
+        return True
+    return False
+
+
+def _less_wrong(a, b):
+    return a < b and b - a > 1
+
+
+def smaller_inlined(x: int, y: int) -> int:
+    if _less(x, y):
+        return x
+    return y
+
+
+def smaller_inlined_wrong(x: int, y: int) -> int:
+    if _less_wrong(x, y):
+        return x
+    return y
